@@ -119,6 +119,14 @@ pub(crate) fn without_terminator(
     bytes: &[u8],
     line_term: LineTerminator,
 ) -> &[u8] {
+    if line_term.is_crlf() {
+        // Lines are terminated by `\n` in CRLF mode too. The `\r` before it
+        // is part of the terminator when present, but it need not be.
+        return match bytes.strip_suffix(b"\n") {
+            None => bytes,
+            Some(line) => line.strip_suffix(b"\r").unwrap_or(line),
+        };
+    }
     let line_term = line_term.as_bytes();
     let start = bytes.len().saturating_sub(line_term.len());
     if bytes.get(start..) == Some(line_term) {
